@@ -204,4 +204,504 @@ theorem AllW.promoteMany {s : State} (h : AllW s) (a : Nat) (ts : List Tx)
     rw [((promoteTx_pframe s a t).2.2.2 a).1]
     exact hd x (by simp [hx])
 
+/-! ### removeTx -/
+
+theorem setIfLower_fields (ac : Account) (n : Nat) :
+    (ac.setIfLower n).pending = ac.pending ∧ (ac.setIfLower n).queue = ac.queue ∧ (ac.setIfLower n).beat = ac.beat ∧
+    (ac.setIfLower n).nonce = ac.nonce ∧ (ac.setIfLower n).balance = ac.balance ∧ (ac.setIfLower n).isLocal = ac.isLocal := by
+  unfold Account.setIfLower; split <;> exact ⟨rfl, rfl, rfl, rfl, rfl, rfl⟩
+
+theorem AllW.removePending {s : State} (h : AllW s) (t : Tx) (invalids : List Tx) (p' : TxList)
+    (hne : (s.acct t.sender).pending.txs ≠ [])
+    (hr : (s.acct t.sender).pending.remove true t = (true, invalids, p')) : AllW (s.removePending t invalids p') := by
+  have hA := h t.sender
+  have hlt : t.sender < s.n := lt_n_of_pending hne
+  have spec := (remove_strict_spec (s.acct t.sender).pending t hA.pSorted).2 (by rw [hr])
+  rw [hr] at spec
+  obtain ⟨hkept, hinv, hcc, hgc, hsort, _, _, _⟩ := spec
+  simp only at hkept hinv hcc hgc hsort
+  -- after the pending update, whatever it is
+  have aux : ∀ s1 : State, AllW s1 → (∀ x ∈ (s1.acct t.sender).pending.txs, x.nonce < t.nonce) →
+      AllW ((s1.enqueueMany invalids).upd t.sender (fun ac => ac.setIfLower t.nonce)) := by
+    intro s1 h1 hlow
+    have h2 : AllW (s1.enqueueMany invalids) := h1.enqueueMany invalids (by
+      intro x hx p hp
+      have hs : x.sender = t.sender := hA.pSender x (hinv x hx).1
+      rw [hs] at hp
+      have := hlow p hp
+      have := (hinv x hx).2
+      omega)
+    refine h2.upd _ _ (fun _ => ?_)
+    have f := setIfLower_fields ((s1.enqueueMany invalids).acct t.sender) t.nonce
+    exact (h2 t.sender).congr f.1 f.2.1 f.2.2.1
+  unfold State.removePending
+  simp only
+  split
+  · refine aux _ (h.upd _ _ (fun _ => ?_)) ?_
+    · exact hA.setPending {} (by simp) sorted_nil (by simp) rfl rfl (by simp)
+    · rw [acct_upd_self _ _ _ hlt]; simp
+  · rename_i hemp
+    refine aux _ (h.upd _ _ (fun _ => ?_)) ?_
+    · refine hA.setPending p' (fun x hx => (hkept x hx).1) hsort ?_ rfl rfl (fun _ => hA.beat hne)
+      intro x hx
+      rw [hcc, hgc]; exact hA.pCaps x (hkept x hx).1
+    · rw [acct_upd_self _ _ _ hlt]
+      exact fun x hx => (hkept x hx).2
+
+theorem AllW.removeQueued {s : State} (h : AllW s) (t : Tx) : AllW (s.removeQueued t) := by
+  unfold State.removeQueued
+  simp only
+  split
+  · exact h
+  · have hA := h t.sender
+    have spec := remove_loose_spec (s.acct t.sender).queue t hA.qSorted
+    split
+    · exact h.upd _ _ (fun _ => hA.setQueue {} (by simp) sorted_nil (by simp) rfl rfl rfl)
+    · refine h.upd _ _ (fun _ => hA.setQueue _ (fun x hx => (spec.1 x hx).1) spec.2.1 ?_ rfl rfl rfl)
+      intro x hx
+      rw [spec.2.2.1, spec.2.2.2.1]; exact hA.qCaps x (spec.1 x hx).1
+
+theorem AllW.removeFromLists {s : State} (h : AllW s) (t : Tx) : AllW (s.removeFromLists t) := by
+  unfold State.removeFromLists
+  simp only
+  split
+  · rename_i invalids p' hm
+    split at hm
+    · simp at hm
+    · rename_i hne
+      exact h.removePending t invalids p' (by simpa using hne) hm
+  · exact h.removeQueued t
+
+theorem AllW.removeTx {s : State} (h : AllW s) (t : Tx) (oob : Bool) : AllW (s.removeTx t oob) := by
+  unfold State.removeTx
+  split
+  · exact h
+  · simp only
+    refine AllW.removeFromLists ?_ t
+    split
+    · exact ((same_allRemove _ _).trans (same_pricedRemoved _ _)).allW h
+    · exact (same_allRemove _ _).allW h
+
+theorem AllW.removeMany {s : State} (h : AllW s) (ts : List Tx) (oob : Bool) : AllW (s.removeMany ts oob) := by
+  unfold State.removeMany
+  exact foldl_preserves AllW _ (fun s x hs => hs.removeTx x oob) ts s h
+
+/-! ### priced-list queries change nothing but the priced list -/
+
+theorem same_underpriced (s : State) (t : Tx) : Same s (s.underpriced t).1 := by
+  unfold State.underpriced
+  split
+  · exact Same.refl _
+  · simp only
+    split <;> exact ⟨rfl, rfl, rfl⟩
+
+theorem same_discard (s : State) (k : Nat) : Same s (s.discard k).1 := by
+  unfold State.discard; exact ⟨rfl, rfl, rfl⟩
+
+theorem same_pricedCap (s : State) (k : Nat) : Same s (s.pricedCap k).1 := by
+  unfold State.pricedCap; exact ⟨rfl, rfl, rfl⟩
+
+/-! ### add -/
+
+theorem AllW.makeRoom {s : State} (h : AllW s) (t : Tx) (l : Bool) : AllW (s.makeRoom t l).1 := by
+  unfold State.makeRoom
+  simp only
+  split
+  · generalize hr : (if (!l) = true then s.underpriced t else (s, false)) = r
+    have hu : AllW r.1 := by
+      subst hr
+      split
+      · exact (same_underpriced s t).allW h
+      · exact h
+    split
+    · exact hu
+    · exact ((same_discard _ _).allW hu).removeMany _ _
+  · exact h
+
+theorem AllW.addAdmitted {s : State} (h : AllW s) (t : Tx) (l : Bool) : AllW (s.addAdmitted t l).1 := by
+  unfold State.addAdmitted
+  simp only
+  have hA := h t.sender
+  split
+  · rename_i hsome
+    rcases add_spec (s.acct t.sender).pending t s.cfg.priceBump with e | ⟨old, e, _, _⟩
+    · rw [e]; exact h
+    · rw [e]
+      simp only
+      obtain ⟨o, ho⟩ := Option.isSome_iff_exists.mp hsome
+      have hom := getN_some_mem ho
+      have hW1 : AllW (s.upd t.sender (fun ac => { ac with pending := (s.acct t.sender).pending.put t })) := by
+        refine h.upd _ _ (fun _ => hA.putPending t rfl ?_ rfl rfl (hA.beat (List.ne_nil_of_mem hom.1)))
+        intro q hq e
+        exact hA.disj o hom.1 q hq (by omega)
+      refine ((same_allAdd _ _).trans (same_pricedPut _ _)).allW ?_
+      cases old with
+      | none => exact hW1
+      | some o' => exact ((same_allRemove _ _).trans (same_pricedRemoved _ _)).allW hW1
+  · rename_i hnone
+    have hn : getN (s.acct t.sender).pending.txs t.nonce = none := by
+      cases hg : getN (s.acct t.sender).pending.txs t.nonce with
+      | none => rfl
+      | some _ => rw [hg] at hnone; simp at hnone
+    have hE : AllW (s.enqueueTx t).1 := h.enqueueTx t (getN_none hn)
+    split
+    · rename_i s' _ heq
+      have : s' = (s.enqueueTx t).1 := by rw [heq]
+      rw [this]; exact hE
+    · rename_i s' _ heq
+      have : s' = (s.enqueueTx t).1 := by rw [heq]
+      rw [this]
+      split
+      · exact hE.upd _ _ (fun _ => (hE t.sender).congr rfl rfl rfl)
+      · exact hE
+
+theorem AllW.add {s : State} (h : AllW s) (t : Tx) (l : Bool) : AllW (s.add t l).1 := by
+  unfold State.add
+  split
+  · exact h
+  · split
+    · exact h
+    · simp only
+      split
+      · exact h.makeRoom t l
+      · exact (h.makeRoom t l).addAdmitted t l
+
+theorem AllW.addTxsLocked {s : State} (h : AllW s) (txs : List Tx) (l : Bool) : AllW (s.addTxsLocked txs l).1 := by
+  unfold State.addTxsLocked
+  suffices hh : ∀ (acc : State × List (Except Err Bool) × List Nat), AllW acc.1 →
+      AllW (txs.foldl (fun (acc : State × List (Except Err Bool) × List Nat) t =>
+        let (s, rs, dirty) := acc
+        let (s, r) := s.add t l
+        let dirty := match r with
+          | .ok false => if dirty.contains t.sender then dirty else dirty ++ [t.sender]
+          | _ => dirty
+        (s, rs ++ [r], dirty)) acc).1 from hh (s, [], []) h
+  induction txs with
+  | nil => exact fun _ h => h
+  | cons t ts ih =>
+    intro acc hacc
+    simp only [List.foldl_cons]
+    exact ih _ (hacc.add t l)
+
+/-! ### promoteExecutables -/
+
+theorem queueScan_spec {ac : Account} {a : Nat} (h : AcctW ac a) (mg : Nat) :
+    let sc := queueScan ac mg
+    (∀ x ∈ sc.2.2.2.txs, x ∈ ac.queue.txs) ∧ Sorted sc.2.2.2.txs ∧
+    (∀ x ∈ sc.2.2.2.txs, x.cost ≤ sc.2.2.2.costcap ∧ x.gas ≤ sc.2.2.2.gascap) ∧
+    (∀ x ∈ sc.2.2.1, x ∈ ac.queue.txs ∧ ∀ y ∈ sc.2.2.2.txs, y.nonce ≠ x.nonce) := by
+  intro sc
+  have hs0 : Sorted (forwardN ac.queue.txs ac.nonce).2 := h.qSorted.filter _
+  have hsub0 : ∀ x ∈ (forwardN ac.queue.txs ac.nonce).2, x ∈ ac.queue.txs := fun x hx => (List.mem_filter.mp hx).1
+  have fs := filter_spec ({ ac.queue with txs := (forwardN ac.queue.txs ac.nonce).2 } : TxList) false ac.balance mg hs0
+    (fun x hx => h.qCaps x (hsub0 x hx))
+  simp only at fs
+  obtain ⟨f1, _, _, f4, f5, _, _, _, _⟩ := fs
+  have rs := ready_spec _ ac.pnGet f4
+  simp only [sc, queueScan]
+  refine ⟨fun x hx => hsub0 x (f1 x (rs.2.1 x hx)), rs.2.2.2.1, fun x hx => f5 x (rs.2.1 x hx), ?_⟩
+  intro x hx
+  refine ⟨hsub0 x (f1 x (rs.1 x hx)), fun y hy => ?_⟩
+  have := rs.2.2.2.2 x hx y hy
+  omega
+
+theorem AllW.capQueue {s : State} (h : AllW s) (a : Nat) (k : Nat) : AllW (s.capQueue a k) := by
+  unfold State.capQueue
+  simp only
+  have hA := h a
+  generalize hcp : (if (s.acct a).isLocal = true then ([], (s.acct a).queue) else (s.acct a).queue.cap s.cfg.accountQueue) = cp
+  have hq : (∀ x ∈ cp.2.txs, x ∈ (s.acct a).queue.txs) ∧ Sorted cp.2.txs ∧
+      (∀ x ∈ cp.2.txs, x.cost ≤ cp.2.costcap ∧ x.gas ≤ cp.2.gascap) := by
+    subst hcp
+    split
+    · exact ⟨fun _ hx => hx, hA.qSorted, hA.qCaps⟩
+    · have cs := cap_spec (s.acct a).queue s.cfg.accountQueue hA.qSorted
+      refine ⟨cs.1, cs.2.2.1, fun x hx => ?_⟩
+      rw [cs.2.2.2.1, cs.2.2.2.2.1]; exact hA.qCaps x (cs.1 x hx)
+  have h1 : AllW (((s.upd a (fun ac => { ac with queue := cp.2 })).allRemoveMany cp.1).pricedRemoved (k + cp.1.length)) :=
+    ((same_allRemoveMany _ _).trans (same_pricedRemoved _ _)).allW
+      (h.upd _ _ (fun _ => hA.setQueue cp.2 hq.1 hq.2.1 hq.2.2 rfl rfl rfl))
+  split
+  · exact h1.upd _ _ (fun _ => (h1 a).setQueue {} (by simp) sorted_nil (by simp) rfl rfl rfl)
+  · exact h1
+
+theorem AllW.promoteAccount {s : State} (h : AllW s) (a : Nat) : AllW (s.promoteAccount a) := by
+  unfold State.promoteAccount
+  simp only
+  split
+  · exact h
+  · rename_i hne
+    have hlt : a < s.n := lt_n_of_queue (by simpa using hne)
+    have hA := h a
+    have sp := queueScan_spec hA s.maxGas
+    simp only at sp
+    obtain ⟨q1, q2, q3, q4⟩ := sp
+    have same1 : Same s ((s.allRemoveMany (queueScan (s.acct a) s.maxGas).1).allRemoveMany (queueScan (s.acct a) s.maxGas).2.1) :=
+      (same_allRemoveMany _ _).trans (same_allRemoveMany _ _)
+    have h1 := same1.allW h
+    have hA1 : (((s.allRemoveMany (queueScan (s.acct a) s.maxGas).1).allRemoveMany (queueScan (s.acct a) s.maxGas).2.1).acct a) = s.acct a :=
+      same1.acct a
+    refine AllW.capQueue (AllW.promoteMany (h1.upd _ _ (fun _ => ?_)) a _ ?_) a _
+    · rw [hA1]; exact hA.setQueue _ q1 q2 q3 rfl rfl rfl
+    · intro x hx
+      refine ⟨hA.qSender x (q4 x hx).1, ?_⟩
+      rw [acct_upd_self _ _ _ (by rw [same1.n]; exact hlt)]
+      exact (q4 x hx).2
+
+theorem AllW.promoteExecutables {s : State} (h : AllW s) (as : List Nat) : AllW (s.promoteExecutables as) := by
+  unfold State.promoteExecutables
+  exact foldl_preserves AllW _ (fun s x hs => hs.promoteAccount x) as s h
+
+/-! ### demoteUnexecutables -/
+
+theorem pendingScan_spec {ac : Account} {a : Nat} (h : AcctW ac a) (mg : Nat) :
+    let sc := pendingScan ac mg
+    (∀ x ∈ sc.2.2.2.txs, x ∈ ac.pending.txs) ∧ Sorted sc.2.2.2.txs ∧
+    (∀ x ∈ sc.2.2.2.txs, x.cost ≤ sc.2.2.2.costcap ∧ x.gas ≤ sc.2.2.2.gascap) ∧
+    (∀ x ∈ sc.2.2.1, x ∈ ac.pending.txs ∧ ∀ y ∈ sc.2.2.2.txs, y.nonce ≠ x.nonce) := by
+  intro sc
+  have hs0 : Sorted (forwardN ac.pending.txs ac.nonce).2 := h.pSorted.filter _
+  have hsub0 : ∀ x ∈ (forwardN ac.pending.txs ac.nonce).2, x ∈ ac.pending.txs := fun x hx => (List.mem_filter.mp hx).1
+  have fs := filter_spec ({ ac.pending with txs := (forwardN ac.pending.txs ac.nonce).2 } : TxList) true ac.balance mg hs0
+    (fun x hx => h.pCaps x (hsub0 x hx))
+  simp only at fs
+  obtain ⟨f1, f2, _, f4, f5, _, f7, _, _⟩ := fs
+  simp only [sc, pendingScan]
+  refine ⟨fun x hx => hsub0 x (f1 x hx), f4, f5, fun x hx => ⟨hsub0 x (f2 x hx), fun y hy => ?_⟩⟩
+  have := f7 y hy x hx
+  omega
+
+theorem AllW.demoteGap {s : State} (h : AllW s) (a : Nat) (nonce : Nat) : AllW (s.demoteGap a nonce) := by
+  unfold State.demoteGap
+  simp only
+  have hA := h a
+  generalize hcp : (if contigRun (s.acct a).pending.txs.length (s.acct a).pending.txs nonce < (s.acct a).pending.txs.length
+      then (s.acct a).pending.cap (contigRun (s.acct a).pending.txs.length (s.acct a).pending.txs nonce)
+      else ([], (s.acct a).pending)) = cp
+  have hq : (∀ x ∈ cp.2.txs, x ∈ (s.acct a).pending.txs) ∧ Sorted cp.2.txs ∧
+      (∀ x ∈ cp.2.txs, x.cost ≤ cp.2.costcap ∧ x.gas ≤ cp.2.gascap) ∧
+      (∀ y ∈ cp.1, y ∈ (s.acct a).pending.txs ∧ ∀ x ∈ cp.2.txs, x.nonce ≠ y.nonce) := by
+    subst hcp
+    split
+    · have cs := cap_spec (s.acct a).pending (contigRun (s.acct a).pending.txs.length (s.acct a).pending.txs nonce) hA.pSorted
+      refine ⟨cs.1, cs.2.2.1, fun x hx => ?_, fun y hy => ⟨cs.2.1 y hy, fun x hx => ?_⟩⟩
+      · rw [cs.2.2.2.1, cs.2.2.2.2.1]; exact hA.pCaps x (cs.1 x hx)
+      · have := cs.2.2.2.2.2.1 x hx y hy; omega
+    · exact ⟨fun _ hx => hx, hA.pSorted, hA.pCaps, by simp⟩
+  have h1 : AllW (s.upd a (fun ac => { ac with pending := cp.2 })) :=
+    h.upd _ _ (fun _ => hA.setPending cp.2 hq.1 hq.2.1 hq.2.2.1 rfl rfl
+      (fun hne => hA.beat (by
+        obtain ⟨x, hx⟩ := List.exists_mem_of_ne_nil _ hne
+        exact List.ne_nil_of_mem (hq.1 x hx))))
+  have h2 : AllW ((s.upd a (fun ac => { ac with pending := cp.2 })).enqueueMany cp.1) := by
+    refine h1.enqueueMany cp.1 ?_
+    intro x hx p hp
+    have hxm := (hq.2.2.2 x hx)
+    have hs : x.sender = a := hA.pSender x hxm.1
+    have hlt : a < s.n := lt_n_of_pending (List.ne_nil_of_mem hxm.1)
+    rw [hs, acct_upd_self _ _ _ hlt] at hp
+    exact hxm.2 p hp
+  split
+  · exact h2.upd _ _ (fun _ => (h2 a).setPending {} (by simp) sorted_nil (by simp) rfl rfl (by simp))
+  · exact h2
+
+theorem AllW.demoteAccount {s : State} (h : AllW s) (a : Nat) : AllW (s.demoteAccount a) := by
+  unfold State.demoteAccount
+  simp only
+  split
+  · exact h
+  · rename_i hne
+    have hne' : (s.acct a).pending.txs ≠ [] := by simpa using hne
+    have hlt : a < s.n := lt_n_of_pending hne'
+    have hA := h a
+    have sp := pendingScan_spec hA s.maxGas
+    simp only at sp
+    obtain ⟨p1, p2, p3, p4⟩ := sp
+    have same1 : Same s (((s.allRemoveMany (pendingScan (s.acct a) s.maxGas).1).allRemoveMany (pendingScan (s.acct a) s.maxGas).2.1).pricedRemoved
+        ((pendingScan (s.acct a) s.maxGas).1.length + (pendingScan (s.acct a) s.maxGas).2.1.length)) :=
+      ((same_allRemoveMany _ _).trans (same_allRemoveMany _ _)).trans (same_pricedRemoved _ _)
+    have h1 := same1.allW h
+    refine AllW.demoteGap (AllW.enqueueMany (h1.upd _ _ (fun _ => ?_)) _ ?_) a _
+    · rw [same1.acct a]
+      exact hA.setPending _ p1 p2 p3 rfl rfl (fun _ => hA.beat hne')
+    · intro x hx p hp
+      have hs : x.sender = a := hA.pSender x (p4 x hx).1
+      rw [hs, acct_upd_self _ _ _ (by rw [same1.n]; exact hlt)] at hp
+      exact (p4 x hx).2 p hp
+
+theorem AllW.demoteUnexecutables {s : State} (h : AllW s) (as : List Nat) : AllW (s.demoteUnexecutables as) := by
+  unfold State.demoteUnexecutables
+  exact foldl_preserves AllW _ (fun s x hs => hs.demoteAccount x) as s h
+
+/-! ### truncatePending / truncateQueue -/
+
+theorem AllW.capOne {s : State} (h : AllW s) (a : Nat) : AllW (s.capOne a) := by
+  unfold State.capOne
+  simp only
+  have hA := h a
+  have cs := cap_spec (s.acct a).pending ((s.acct a).pending.txs.length - 1) hA.pSorted
+  have h1 : AllW (s.upd a (fun ac => { ac with pending := ((s.acct a).pending.cap ((s.acct a).pending.txs.length - 1)).2 })) := by
+    refine h.upd _ _ (fun _ => hA.setPending _ cs.1 cs.2.2.1 (fun x hx => ?_) rfl rfl (fun hne => hA.beat ?_))
+    · rw [cs.2.2.2.1, cs.2.2.2.2.1]; exact hA.pCaps x (cs.1 x hx)
+    · obtain ⟨x, hx⟩ := List.exists_mem_of_ne_nil _ hne
+      exact List.ne_nil_of_mem (cs.1 x hx)
+  refine (same_pricedRemoved _ _).allW ?_
+  refine foldl_preserves AllW _ (fun s x hs => hs.upd _ _ (fun _ => ?_)) _ _ ((same_allRemoveMany _ _).allW h1)
+  have f := setIfLower_fields (s.acct a) x.nonce
+  exact (hs a).congr f.1 f.2.1 f.2.2.1
+
+theorem AllW.capEach {s : State} (h : AllW s) (as : List Nat) : AllW (s.capEach as) := by
+  unfold State.capEach
+  exact foldl_preserves AllW _ (fun s x hs => hs.capOne x) as s h
+
+theorem AllW.equalize (fuel : Nat) {s : State} (h : AllW s) (prevs : List Nat) (chk thr pending : Nat) :
+    AllW (equalize fuel s prevs chk thr pending).1 := by
+  induction fuel generalizing s pending with
+  | zero => exact h
+  | succ f ih =>
+    unfold YouVerif.C20.equalize
+    split
+    · exact ih (h.capEach prevs) _
+    · exact h
+
+theorem AllW.spamLoop (sp : List Nat) {s : State} (h : AllW s) (off : List Nat) (pending : Nat) :
+    AllW (spamLoop sp s off pending).1 := by
+  induction sp generalizing s off pending with
+  | nil => exact h
+  | cons o rest ih =>
+    unfold YouVerif.C20.spamLoop
+    split
+    · simp only
+      split
+      · exact ih h _ _
+      · exact ih (AllW.equalize _ h _ _ _ _) _ _
+    · exact h
+
+theorem AllW.finalLoop (fuel : Nat) {s : State} (h : AllW s) (off : List Nat) (last pending : Nat) :
+    AllW (finalLoop fuel s off last pending).1 := by
+  induction fuel generalizing s pending with
+  | zero => exact h
+  | succ f ih =>
+    unfold YouVerif.C20.finalLoop
+    split
+    · exact ih (h.capEach off) _
+    · exact h
+
+theorem AllW.truncatePending {s : State} (h : AllW s) (ord : List Nat) : AllW (s.truncatePending ord) := by
+  unfold State.truncatePending
+  simp only
+  split
+  · exact h
+  · have := AllW.spamLoop (List.foldl (fun acc a => insertDesc (fun a => (s.acct a).pending.txs.length) a acc) []
+        (List.filter (fun a => !(s.acct a).isLocal && decide ((s.acct a).pending.txs.length > s.cfg.accountSlots)) ord))
+      h [] s.pendingCount
+    split
+    · exact this
+    · exact AllW.finalLoop _ this _ _ _
+
+theorem AllW.queueDropLoop (as : List Nat) {s : State} (h : AllW s) (drop : Nat) : AllW (queueDropLoop as s drop) := by
+  induction as generalizing s drop with
+  | nil => exact h
+  | cons a rest ih =>
+    unfold YouVerif.C20.queueDropLoop
+    split
+    · exact h
+    · simp only
+      split
+      · exact ih (h.removeMany _ _) _
+      · exact h.removeMany _ _
+
+theorem AllW.truncateQueue {s : State} (h : AllW s) (ord : List Nat) : AllW (s.truncateQueue ord) := by
+  unfold State.truncateQueue
+  simp only
+  split
+  · exact h
+  · exact AllW.queueDropLoop _ h _
+
+/-! ### nonce refresh, reset, the operations -/
+
+theorem getD_map_default (l : List Account) (f : Account → Account) (hf : f {} = {}) (b : Nat) :
+    (l.map f).getD b {} = f (l.getD b {}) := by
+  simp only [List.getD_eq_getElem?_getD, List.getElem?_map]
+  cases l[b]? <;> simp [hf]
+
+theorem acct_refreshNonces (s : State) (b : Nat) :
+    (s.refreshNonces.acct b).pending = (s.acct b).pending ∧ (s.refreshNonces.acct b).queue = (s.acct b).queue ∧
+    (s.refreshNonces.acct b).beat = (s.acct b).beat ∧ (s.refreshNonces.acct b).nonce = (s.acct b).nonce ∧
+    (s.refreshNonces.acct b).balance = (s.acct b).balance ∧ (s.refreshNonces.acct b).isLocal = (s.acct b).isLocal ∧
+    (s.refreshNonces.acct b).pn = (match (s.acct b).pending.txs.getLast? with
+      | some t => some (t.nonce + 1)
+      | none => (s.acct b).pn) := by
+  unfold State.refreshNonces State.acct
+  simp only
+  rw [getD_map_default _ _ (by simp)]
+  split <;> simp_all
+
+theorem AllW.refreshNonces {s : State} (h : AllW s) : AllW s.refreshNonces := by
+  intro b
+  have f := acct_refreshNonces s b
+  exact (h b).congr f.1 f.2.1 f.2.2.1
+
+theorem AllW.resetState {s : State} (h : AllW s) (gl : Nat) (ch : List (Nat × Nat × Nat)) : AllW (s.resetState gl ch) := by
+  unfold State.resetState
+  simp only
+  refine foldl_preserves AllW _ (fun s c hs => hs.upd _ _ (fun _ => AcctW.congr (ac' := { s.acct c.1 with nonce := c.2.1, balance := c.2.2 }) (hs c.1) rfl rfl rfl)) ch _ ?_
+  intro b
+  have : (({ s with accts := s.accts.map (fun ac => { ac with pn := none }), maxGas := gl } : State).acct b) =
+      { s.acct b with pn := none } := by
+    unfold State.acct
+    simp only
+    rw [getD_map_default _ _ (by rfl)]
+  rw [this]
+  exact (h b).congr rfl rfl rfl
+
+theorem AllW.reset {s : State} (h : AllW s) (k : ResetKind) (gl : Nat) (ch : List (Nat × Nat × Nat)) (d i : List Tx) :
+    AllW (s.reset k gl ch d i) := by
+  unfold State.reset
+  cases k with
+  | early => exact h
+  | normal => exact (h.resetState gl ch).addTxsLocked _ _
+
+theorem AllW.reorgPlain {s : State} (h : AllW s) (ord dirty : List Nat) : AllW (s.reorgPlain ord dirty) := by
+  unfold State.reorgPlain
+  exact (((h.promoteExecutables _).truncatePending _).truncateQueue _).refreshNonces
+
+theorem AllW.reorgReset {s : State} (h : AllW s) (ord : List Nat) (k : ResetKind) (gl : Nat) (ch : List (Nat × Nat × Nat))
+    (d i : List Tx) : AllW (s.reorgReset ord k gl ch d i) := by
+  unfold State.reorgReset
+  exact (((((h.reset k gl ch d i).promoteExecutables _).demoteUnexecutables _).truncatePending _).truncateQueue _).refreshNonces
+
+theorem AllW.evict {s : State} (h : AllW s) (ord : List Nat) (k : Nat) : AllW (s.evict ord k) := by
+  unfold State.evict
+  refine foldl_preserves AllW _ (fun s a hs => ?_) _ s h
+  simp only
+  split
+  · exact hs
+  · split
+    · exact hs.removeMany _ _
+    · exact hs
+
+theorem AllW.setGasPrice {s : State} (h : AllW s) (p : Nat) : AllW (s.setGasPrice p) := by
+  unfold State.setGasPrice
+  simp only
+  have h0 : AllW ({ s with gasPrice := p } : State) := Same.allW (s := s) ⟨rfl, rfl, rfl⟩ h
+  exact ((same_pricedCap _ _).allW h0).removeMany _ _
+
+/-- every operation preserves the structural per-account invariant -/
+theorem AllW.step {s : State} (h : AllW s) (op : Op) : AllW (step s op).1 := by
+  cases op with
+  | add l ord txs => exact (h.addTxsLocked txs l).reorgPlain _ _
+  | reset ord k gl ch d i => exact h.reorgReset ord k gl ch d i
+  | setPrice p => exact h.setGasPrice p
+  | remove t oob => exact h.removeTx t oob
+  | evict ord k => exact h.evict ord k
+  | promote ord => exact h.reorgPlain ord []
+
+theorem allW_init (cfg : Config) (pl gl : Nat) (accts : List (Nat × Nat)) : AllW (YouVerif.C20.init cfg pl gl accts) := by
+  intro a
+  have : ((YouVerif.C20.init cfg pl gl accts).acct a).pending.txs = [] ∧ ((YouVerif.C20.init cfg pl gl accts).acct a).queue.txs = [] := by
+    simp only [State.acct, YouVerif.C20.init, List.getD_eq_getElem?_getD, List.getElem?_map]
+    cases accts[a]? <;> simp
+  constructor <;> simp [this.1, this.2, Sorted]
+
 end YouVerif.C20
